@@ -14,6 +14,11 @@ Theorem C05_smc_target : forall {X Z} (L Pi Q : X -> XR) (Tinv_pt : Z -> X) (Tin
        smc_row L Pi Q Tinv_pt Tinv_lj (Fin b) zi = Fin ((1 - b) * q + b * (l + p) + j).
 Proof. intros. split; [apply smc_log_prob_rows| intros; now apply smc_row_finite]. Qed.
 
+(* the BlackJAX adapter hands its kernel the same per-row value *)
+Theorem C05_blackjax_target : forall {X Z} (L Pi Q : X -> XR) (Tinv_pt : Z -> X) (Tinv_lj : Z -> XR) z beta n0,
+  blackjax_log_prob_value L Pi Q Tinv_pt Tinv_lj z beta n0 = map (smc_row L Pi Q Tinv_pt Tinv_lj beta) z.
+Proof. intros. apply blackjax_log_prob_rows. Qed.
+
 Theorem C05_mcmc_target : forall {X Z} (L Pi : X -> XR) (Tinv_pt : Z -> X) (Tinv_lj : Z -> XR) z n0,
   mcmc_log_prob_value L Pi Tinv_pt Tinv_lj z n0 = map (mcmc_row L Pi Tinv_pt Tinv_lj) z
   /\ forall zi l p j,
@@ -37,5 +42,6 @@ Proof. intros. apply smc_never_nan. Qed.
 
 Print Assumptions C05_smc_target.
 Print Assumptions C05_mcmc_target.
+Print Assumptions C05_blackjax_target.
 Print Assumptions C05_zero_prior.
 Print Assumptions C05_nan_to_neginf.
